@@ -49,7 +49,7 @@ def run(ctx):
             DC.add_reference(ctx.rng, doc, names, where, attr, target)
             ctx.rng._second = None
             refs.append((where, attr[1], target))
-        if len(names) >= 2:
+        if len(set(names)) >= 2:
             # always: a style that is used, and that names another one from an element inside it - the other one named nowhere else if possible
             used_names = set(tk for w, a, tg in refs if not w.startswith('auto') for tk in tg.split())
             named = set(tk for w, a, tg in refs for tk in tg.split())
